@@ -137,6 +137,39 @@ def _cooperative_locks(prefix):
                 fix(dict(c.__dict__), lambda k, v, c=c: setattr(c, k, v))
 
 
+class debug_logging:
+    """process-wide setting: the logging module switched to DEBUG on the root logger (so that every library logger is enabled for
+    DEBUG), with a handler that formats each record into a throw-away buffer (lazy %-arguments are evaluated, as a real handler would)"""
+
+    def __enter__(self):
+        import logging, io
+        self.root = logging.getLogger()
+        self.level = self.root.level
+        self.disabled = logging.root.manager.disable
+        self.h = logging.StreamHandler(io.StringIO())
+        self.h.setLevel(logging.DEBUG)
+        self.root.addHandler(self.h)
+        self.root.setLevel(logging.DEBUG)
+        logging.disable(logging.NOTSET)
+        self.touched = []
+        for name, lg in list(logging.root.manager.loggerDict.items()):
+            if isinstance(lg, logging.Logger) and (name == "spake2" or name.startswith("spake2")):
+                self.touched.append((lg, lg.level, lg.disabled))
+                lg.setLevel(logging.NOTSET)
+                lg.disabled = False
+        return self
+
+    def __exit__(self, *a):
+        import logging
+        self.root.removeHandler(self.h)
+        self.root.setLevel(self.level)
+        logging.disable(self.disabled)
+        for lg, lvl, dis in self.touched:
+            lg.setLevel(lvl)
+            lg.disabled = dis
+        return False
+
+
 _FRESH = []
 
 
